@@ -422,7 +422,15 @@ def installed(obs: Observer) -> Iterator[None]:
                 "P": P, "now": to_ticks(sim.now()), "outcomes": None, "now1": None, "storage": storage,
                 "body": cause.body}
         rec["pcc"] = info
-        out = await orig_pcc(**kw)
+        # whether THIS pass closes the cycle (`done or skip`): the flag is only written inside, never read there
+        mem_ = kw["memory"]
+        prev_flag = mem_.fully_handled_once
+        mem_.fully_handled_once = False
+        try:
+            out = await orig_pcc(**kw)
+        finally:
+            info["closed"] = bool(mem_.fully_handled_once)
+            mem_.fully_handled_once = prev_flag or info["closed"]
         info["delays"] = [float(d) for d in out]
         info["memory_fully_handled_once"] = kw["memory"].fully_handled_once
         return out
